@@ -300,6 +300,8 @@ WriteFloatContract(ev) ==
     IN  IF ~ev.opts_valid \/ OptionsPunctuationValidity(f, o.exp, o.point) # "valid"
         THEN \* options the builder rejects, or punctuation that is a digit / sign / separator of this format: only "no fault"
              (IF r.k \in {"ok", "panic"} THEN << >> ELSE << << "C09", "write call did not return: " \o r.k >> >>)
+             \* C17's global clause speaks of the options the CODE accepts: whatever it writes under options it calls valid is ASCII
+             \o (IF ev.opts_valid /\ r.k = "ok" THEN V(AllAscii(r.out, 1), "C17", "non-ASCII byte written") ELSE << >>)
         ELSE IF specialOff THEN V(r.k = "panic", "C15", "special value written although its string is disabled")
         ELSE LET ab == WriteAbnormal(ev)
                  bc == BoundCoversLongest(ev, f, o) IN
